@@ -72,12 +72,12 @@ Qed.
 
 (* rejected credentials are permanent (here: no STARTTLS offered, cleartext allowed;
    after a TLS upgrade the same step function runs) *)
-Theorem C13_rejected_credentials_permanent : forall cfg chan p f rest m,
+Theorem C13_rejected_credentials_permanent : forall cfg chan p f rest sn m,
   choose_mech (c_mechs cfg) (f_mechs f) = Some m -> implemented m = true ->
-  res (step_auth cfg chan p f (SSaslFailure :: rest)) = Err true true /\
-  attempt_of (res (step_auth cfg chan p f (SSaslFailure :: rest))) = AFailPermanent.
+  res (step_auth cfg chan p f (SSaslFailure :: rest) sn) = Err true true /\
+  attempt_of (res (step_auth cfg chan p f (SSaslFailure :: rest) sn)) = AFailPermanent.
 Proof.
-  intros cfg chan p f rest m Hm Hi. unfold step_auth, res. rewrite Hm, Hi. split; reflexivity.
+  intros cfg chan p f rest sn m Hm Hi. unfold step_auth, res. rewrite Hm, Hi. split; reflexivity.
 Qed.
 
 Example C13_example :
